@@ -1047,9 +1047,8 @@ func substr(fn parser.Function, args []value.Primary, zeroBasedIndex bool) (valu
 		if sublen < 0 {
 			return value.NewNull(), nil
 		}
-		end = start + sublen
-		if strlen < end {
-			end = strlen
+		if sublen < strlen-start {
+			end = start + sublen
 		}
 	}
 
